@@ -6,6 +6,7 @@ from engine.core import run, enumerate_prefixes
 from engine.ob import Ob
 
 from eliot import _output, log_message, start_action
+from eliot import add_destinations as eliot_add
 from eliot._output import Destinations, Logger
 
 PROPERTY = "C08"
@@ -134,6 +135,62 @@ def E1() -> bool:
     return run(body_E1, "X", {})
 
 
+# -- E3: failures while the start-up buffer is re-delivered (send() without a logger) ----------
+def body_E3(ctx):
+    sh = ctx.shard
+    nbuf = 1 + ctx.choose(2, "buffered messages")
+    nd = 1 + ctx.choose(2, "number of destinations")
+    in_action = ctx.flag("add_destinations inside an action")
+    budget = [sh.get("F", 2)]
+    dests = [Rec(ctx, "d%d" % i, budget) for i in range(nd)]
+    for i in range(nbuf):
+        log_message("t:m%d" % i, i=i)
+    if in_action:
+        with start_action(action_type="t:setup"):
+            eliot_add(*dests)
+            log_message("t:inside", i=100)
+    else:
+        eliot_add(*dests)
+    log_message("t:after", i=101)
+    originals = ["t:m%d" % i for i in range(nbuf)] + (["start", "t:inside", "end"] if in_action else []) + ["t:after"]
+    stream = dests[0].got
+    for d in dests[1:]:
+        ctx.check([strip(m) for m in d.got] == [strip(m) for m in stream], "destinations disagree: %r vs %r", [strip(m).get("message_type") for m in d.got], [strip(m).get("message_type") for m in stream])
+    fails_at = {d.name: dict(d.fail_log) for d in dests}
+    pos = 0
+    call_no = 0
+    for what in originals:
+        ctx.check(pos < len(stream), "stream ended early: %r missing (got %r)", what, [strip(x).get("message_type") or x.get("action_status") for x in stream])
+        m = stream[pos]
+        pos += 1
+        call_no += 1
+        kind = m.get("message_type") or {"started": "start", "succeeded": "end"}.get(m.get("action_status"))
+        ctx.check(kind == what, "expected %s at stream position %d, got %r", what, pos, strip(m))
+        orig_call = call_no
+        for d in dests:
+            if orig_call in fails_at[d.name]:
+                e = fails_at[d.name][orig_call]
+                ctx.check(pos < len(stream), "no eliot:destination_failure report for the failure of %s on %s (add inside an action: %r); stream %r", d.name, what, in_action, [strip(x).get("message_type") or x.get("action_status") for x in stream])
+                r = stream[pos]
+                pos += 1
+                call_no += 1
+                ctx.check(r.get("message_type") == "eliot:destination_failure" and r.get("reason") == str(e), "expected the report about %s, got %r", what, strip(r))
+    ctx.check(pos == len(stream), "%d unexpected extra messages: %r", len(stream) - pos, [strip(x) for x in stream[pos:]])
+    n_fail = sum(len(d.fail_log) for d in dests)
+    if n_fail:
+        ctx.nontrivial((in_action, nbuf, nd, tuple(ctx.trace)))
+    if n_fail and in_action:
+        ctx.reached("failed-redelivery-inside-action")
+    ctx.sample({"buffered": nbuf, "destinations": nd, "add_inside_action": in_action, "failed_calls": {d.name: [c for c, _ in d.fail_log] for d in dests}, "stream": [x.get("message_type") or x.get("action_status") for x in stream]})
+
+
+def E3() -> bool:
+    """
+    post: _
+    """
+    return run(body_E3, "X", {})
+
+
 # -- twin for the recursion bound: a destination failing on every call --------------
 def body_E2(ctx):
     class Always(object):
@@ -194,5 +251,7 @@ OBLIGATIONS = [
         timeout={"quick": 100, "thorough": 1200},
         bounds={"quick": "<= 3 destinations, <= 3 messages, optionally inside an action, <= 3 failing calls anywhere (incl. on reports)", "thorough": "<= 4 messages, <= 5 failing calls"},
     ),
+    Ob("E3", E3, body_E3, "X", desc="failures while the start-up buffer is re-delivered by add_destinations (inside or outside an action): one report per failure, same sequence for every destination", functions=["Destinations.add", "Destinations.send (logger=None)", "log_message", "Action.log"],
+       twin=[{"F": 2, "twin_label": "failed-redelivery-inside-action"}], timeout={"quick": 100, "thorough": 300}, bounds={"quick": "1-2 buffered messages, 1-2 destinations, add_destinations inside/outside an action, <= 2 failing calls anywhere"}),
     Ob("E2", E2, body_E2, "X", desc="permanently broken destinations: one report per original message per broken destination, recursion depth 1", functions=["Destinations.send"], timeout={"quick": 60, "thorough": 60}, bounds={"quick": "1-2 always-failing destinations, 1-3 messages"}),
 ]
